@@ -2,7 +2,7 @@
    succeeded or the application's callback explicitly accepted that failure, and the peer proved possession of the leaf key
    over this handshake's own data; without a callback every validation failure is fatal, identically in every version.
    Only statements closed by `exact`; proofs: Auth/AuthProofs.v; model: Auth/AuthModel.v (cert_outcome12 / cert_outcome13 are
-   the REPAIRED hsDecode.c parseCertificate / tls13Authenticate.c matrixSslValidatePeerCerts: pending-fixes/C04-*.patch; the
+   the REPAIRED hsDecode.c parseCertificate / tls13Authenticate.c matrixSslValidatePeerCerts / matrixssl.c matrixSslSetCertChainAlert: pending-fixes/C04-*.patch incl. C04-6; the
    pinned code is kept as [cert_run12 pinned] / [cert_run13 pinned]); spec: Auth/AuthSpec.v. *)
 From MV Require Import Auth.AuthModel Auth.AuthSpec Auth.AuthProofs.
 Local Open Scope Z_scope.
@@ -26,8 +26,7 @@ Theorem c04_valid_continues : forall v, ~ auth_failure v ->
 Proof. exact valid_continues. Qed.
 Print Assumptions c04_valid_continues.
 
-(* both versions take the same decision.  Without a callback: the same Continue/Fatal decision (the alert description may
-   differ: TLS <= 1.2 reports the first failing certificate, TLS 1.3 the last).  With a callback: both consult it, both with a
+(* both versions take the same decision (kept from before repair C04-6; c04_versions_identical below is stronger).  With a callback: both consult it, both with a
    pending alert or both without, and if the callback answers the two alert values alike the outcomes are equal. *)
 Theorem c04_versions_agree : forall v cb,
   (cb = None -> continues (cert_outcome12 v cb) = continues (cert_outcome13 v cb)) /\
@@ -37,6 +36,20 @@ Theorem c04_versions_agree : forall v cb,
   (v_rc v = a_PS_MEM_FAIL -> cert_outcome12 v cb = Fatal a_SSL_ALERT_INTERNAL_ERROR /\ cert_outcome13 v cb = Fatal a_SSL_ALERT_INTERNAL_ERROR).
 Proof. exact versions_agree. Qed.
 Print Assumptions c04_versions_agree.
+
+(* after the repair C04-6 both versions run the same chain -> alert mapping: outcome AND alert are equal for every verdict *)
+Theorem c04_versions_identical : forall v cb,
+  cert_outcome12 v cb = cert_outcome13 v cb /\ cb_arg12 v cb = cb_arg13 v cb.
+Proof. intros v cb. unfold cert_outcome12, cert_outcome13, cb_arg12, cb_arg13. rewrite versions_identical. split; reflexivity. Qed.
+Print Assumptions c04_versions_identical.
+
+(* "explicitly accepted THAT failure": the one alert the callback is given stands for the most severe defect of the chain
+   (expired < name mismatch < anything that breaks the trust path; defects are read off the verdict per certificate, plus
+   "no trust anchor" and "too deep"), so a callback that tolerates what it is told never tolerates something worse unseen *)
+Theorem c04_alert_most_severe : forall v f a d, v_rc v <> a_PS_MEM_FAIL ->
+  cb_arg12 v (Some f) = Some a -> is_defect v d -> severity d <= arg_severity a.
+Proof. exact alert_most_severe. Qed.
+Print Assumptions c04_alert_most_severe.
 
 (* a registered callback is consulted exactly once (except on allocation failure, which is fatal), is given a non-zero alert
    iff authentication failed, and the handshake goes on only if it answered 0 or SSL_ALLOW_ANON_CONNECTION *)
@@ -60,6 +73,23 @@ Theorem c04_pop : forall sig_ok fin_ok c t0 ms, let s := run sig_ok fin_ok c t0 
   ph s = PDone -> exists k, leaf s = Some k /\ possession_proved sig_ok fin_ok c s k.
 Proof. exact pop_on_done. Qed.
 Print Assumptions c04_pop.
+
+(* a server connection configured for client authentication, from the ClientHello on: whatever the client offers (made-up /
+   expired / evicted session id, stale / foreign / undecryptable ticket or TLS 1.3 PSK identity, nothing) and whatever follows,
+   DONE is reached only with a proof of possession by the leaf key of an accepted chain in THIS handshake, or after the lookup
+   of the offer answered with a resumable session - and then the resumed session is exactly the one the lookup answered with
+   (its flag b says whether ITS original handshake authenticated the client: the code does not record or check b, see the
+   open finding "resumed-unauthenticated-original"; for a cache that only holds sessions of authenticated handshakes b = true) *)
+Theorem c04_auth_not_dropped : forall sig_ok fin_ok c ms, let s := run_hello sig_ok fin_ok c ms in
+  ph s = PDone ->
+  (exists b, resumed s = Some b) \/ (exists k, leaf s = Some k /\ possession_proved sig_ok fin_ok c s k).
+Proof. exact auth_not_dropped. Qed.
+Print Assumptions c04_auth_not_dropped.
+
+Theorem c04_resumed_only_by_lookup : forall sig_ok fin_ok c ms b, resumed (run_hello sig_ok fin_ok c ms) = Some b ->
+  p_role c = VServer /\ exists rest, ms = MClientHello (Some b) :: rest.
+Proof. exact resumed_only_by_lookup. Qed.
+Print Assumptions c04_resumed_only_by_lookup.
 
 (* the pinned code: the confirmed defect (expired leaf: rc = 0, FAIL_EXTENSION/DATE, no callback => Continue in TLS <= 1.2) *)
 Theorem c04_pinned_nocb_fatal_refuted :
